@@ -235,6 +235,36 @@ func main() {
 		o.Set("txnit.trackAll", "txn_iterator.go:TxnIterator.advance", val, ok, "true")
 	}
 
+	// ---- does the iterator record the range it scanned (absent keys included)?  As-is shape: the
+	// only addReadKey calls of txn_iterator.go are the one in advance() for the returned item (after
+	// `it.valid = true`) and the one in Seek() for the sought key; nothing else touches the read set.
+	// There is no repaired shape to recognise yet: anything else is a shape error.
+	{
+		ti := o.Load("txn_iterator.go")
+		adv := ti.Func("TxnIterator.advance")
+		seek := ti.Func("TxnIterator.Seek")
+		total := 0
+		ast.Inspect(ti.AST, func(n ast.Node) bool {
+			if c, isC := n.(*ast.CallExpr); isC && strings.HasSuffix(ti.Src(c.Fun), "addReadKey") {
+				total++
+			}
+			return true
+		})
+		asis := adv != nil && seek != nil && total == 2 &&
+			ti.CallIndex(adv.Body, "it.txn.addReadKey") >= 0 && ti.CallIndex(seek.Body, "it.txn.addReadKey") >= 0
+		if asis {
+			// the call in advance() must come after the item was accepted
+			src := ti.Src(adv.Body)
+			i, j := strings.Index(src, "it.valid = true"), strings.Index(src, "it.txn.addReadKey(encoded)")
+			asis = i >= 0 && j > i
+		}
+		txs := tx.Src(tx.AST)
+		if asis && !strings.Contains(txs, "reads []uint64") {
+			asis = false
+		}
+		o.Set("txnit.tracksRange", "txn_iterator.go:TxnIterator.advance", "false", asis, "false")
+	}
+
 	// ---- initCommitState: seeding of the timestamp allocator after Open
 	{
 		fd := tx.Func("oracle.initCommitState")
@@ -365,13 +395,13 @@ open NoKV NoKV.Mvcc
 
 def mvccCfg : MvccCfg :=
   { readTsOff := %s, trackGet := %s, checksConflict := %s, skipOp := %s, intentOp := %s,
-    intentFinal := %s, intentDelGuard := %s, scanTrackAll := %s, seedOp := %s,
+    intentFinal := %s, intentDelGuard := %s, scanTrackAll := %s, scanTracksRange := %s, seedOp := %s,
     recordsCommit := %s, pruneOp := %s, countOp := %s, sizeOp := %s, sendCountOp := %s,
     sendSizeOp := %s, wmTracksZero := %s, wmHoldsAtDone := %s }
 
 end NoKV.Generated.Mvcc
 `, f["oracle.readTsOff"], f["txn.trackGet"], f["oracle.checksConflict"], elib.LeanOp(f["oracle.skipOp"]), elib.LeanOp(f["oracle.intentOp"]),
-		f["oracle.intentFinal"], f["oracle.intentDelGuard"], f["txnit.trackAll"], elib.LeanOp(f["oracle.seedOp"]),
+		f["oracle.intentFinal"], f["oracle.intentDelGuard"], f["txnit.trackAll"], f["txnit.tracksRange"], elib.LeanOp(f["oracle.seedOp"]),
 		f["oracle.recordsCommit"], elib.LeanOp(f["oracle.pruneOp"]), elib.LeanOp(f["txn.countOp"]), elib.LeanOp(f["txn.sizeOp"]),
 		elib.LeanOp(f["db.sendCountOp"]), elib.LeanOp(f["db.sendSizeOp"]), f["wm.tracksZero"], f["wm.holdsAtDone"])
 	o.Write(*jsonOut, *leanOut, lean)
